@@ -95,8 +95,10 @@ Definition stmt_neq (a b : option srec) : bool :=
 Inductive hit := HitUser (a : Z) | HitTemp.
 
 (* mn / mres are bookkeeping for the specification (not fields of the Python
-   objects): number of cpu.tick() calls made so far, and whether tick() was ever
-   called on a machine that had halted (run() hides this by resetting halted) *)
+   objects): number of cpu.tick() calls made so far, and whether the debugger
+   ever drove a finished machine: tick() called with halted set or pc past the
+   end of the code, or run() entered with halted set (run() hides this by
+   resetting halted) *)
 Record mach := mkMach {
   ms : st;
   mlast : option hit;       (* cpu.last_breakpoint *)
@@ -145,7 +147,8 @@ Definition check_bps (m : module) (di : dbginfo) (bps : list Z) (t : tbp) (s : s
 
 (* one cpu.tick() with the bookkeeping *)
 Definition mtick (m : module) (x : mach) : rres :=
-  let x1 := mkMach (ms x) (mlast x) (mn x + 1) (mres x || halted (ms x)) in
+  let x1 := mkMach (ms x) (mlast x) (mn x + 1)
+                   (mres x || halted (ms x) || (pc (ms x) >=? code_len m)) in
   match tick m (ms x) with
   | Next s' => RDone (with_st x1 s')
   | Crash k s' => RCrash k (with_st x1 s')
